@@ -642,3 +642,69 @@ Theorem opaque_code_sound : forall a b d, case_code (COpaque a b d) = 0%N ->
 Proof.
   intros a b d H. cbn in H. destruct a, b, d; cbn in H; try discriminate; auto.
 Qed.
+
+(** * C04: placeholders *)
+
+Section NodeInd.
+  Variable P : node -> Prop.
+  Hypothesis HQ : forall b, P (NQ b).
+  Hypothesis HL : forall b, P (NL b).
+  Hypothesis HB : forall l, Forall P l -> P (NB l).
+  Fixpoint node_ind' (n : node) : P n :=
+    match n with
+    | NQ b => HQ b
+    | NL b => HL b
+    | NB l => HB l ((fix go (l : list node) : Forall P l :=
+                       match l with
+                       | [] => Forall_nil P
+                       | x :: t => Forall_cons x (node_ind' x) (go t)
+                       end) l)
+    end.
+End NodeInd.
+
+Lemma to_quil_model_leaves : forall n, to_quil_model n = first_some (leaves n).
+Proof.
+  induction n as [[]|[]|l IH] using node_ind'; try reflexivity.
+  cbn [to_quil_model leaves]. induction IH as [|x t Hx _ IHt]; [reflexivity|].
+  rewrite Hx, IHt. clear.
+  induction (leaves x) as [|[e|] r IHr]; cbn [app first_some]; auto.
+Qed.
+
+Lemma to_quil_model_placeholder : forall n,
+  to_quil_model n = None <-> has_placeholder n = false.
+Proof.
+  induction n as [[]|[]|l IH] using node_ind'; cbn [to_quil_model has_placeholder];
+    try (split; congruence).
+  induction IH as [|x t Hx _ IHt]; [split; reflexivity|].
+  destruct (to_quil_model x) eqn:Hm.
+  - split; [discriminate|]. intros H. apply orb_false_iff in H as [H _].
+    apply Hx in H. discriminate.
+  - assert (Hh : has_placeholder x = false) by (apply Hx; reflexivity). rewrite Hh. exact IHt.
+Qed.
+
+Theorem placeholder_iff : forall n,
+  (exists e, to_quil_model n = Some e) <-> has_placeholder n = true.
+Proof.
+  intros n. pose proof (to_quil_model_placeholder n) as [H1 H2]. split.
+  - intros [e He]. destruct (has_placeholder n); auto. rewrite (H2 eq_refl) in He. discriminate.
+  - intros H. destruct (to_quil_model n) as [e|]; eauto. rewrite (H1 eq_refl) in H. discriminate.
+Qed.
+
+Lemma ph_code_sound : forall n r dbg rp, ph_code (n, r, dbg, rp) = 0%N ->
+  (r = QOk <-> has_placeholder n = false) /\
+  r = qres_of (to_quil_model n) /\ dbg = true /\
+  (has_placeholder n = false -> rp = Some true).
+Proof.
+  intros n r dbg rp H. unfold ph_code in H.
+  destruct (chk_placeholder (n, r, dbg, rp)) eqn:Hc; cbn [negb] in H; [|discriminate].
+  destruct (qres_eqb (qres_of (to_quil_model n)) r) eqn:Hm; cbn [negb] in H; [|discriminate].
+  unfold chk_placeholder in Hc.
+  apply andb_true_iff in Hc as [Hc Hrp]. apply andb_true_iff in Hc as [Hc Hd].
+  apply andb_true_iff in Hc as [Hiff _]. apply eqb_prop in Hiff.
+  assert (Hr : r = qres_of (to_quil_model n))
+    by (destruct r, (qres_of (to_quil_model n)); cbn in Hm; try discriminate; reflexivity).
+  repeat split; auto.
+  - intros ->. cbn in Hiff. auto.
+  - intros Hn. rewrite Hn in Hiff. destruct r; cbn in Hiff; try discriminate; reflexivity.
+  - intros Hn. rewrite Hn in Hrp. destruct rp as [[]|]; try discriminate; reflexivity.
+Qed.
